@@ -348,6 +348,34 @@ func c04Run(t *testing.T, st *vstat.Stats, p c04Plan) (v *viol) {
 				atRest = append(atRest, s)
 			}
 		}
+		// first on the live machine: after the password expired (DropSensitiveData) a wrong password must not unlock anything
+		for _, wp := range p.Wrong {
+			if wp == string(m.Password) {
+				continue
+			}
+			m.M.DropSensitiveData()
+			m.M.SetEncryptionKey([]byte(wp))
+			if err := m.M.LoadKeysFromDB(); err == nil {
+				v = violf("wrong-password-loads-keys", "live machine %d after DropSensitiveData: the long-term key loads with the wrong password %q", target, wp)
+				return
+			}
+			if rings, err := m.M.GetBLSKeyrings(); err == nil && len(rings) > 0 {
+				v = violf("wrong-password-loads-shares", "live machine %d after DropSensitiveData: GetBLSKeyrings succeeds with the wrong password %q", target, wp)
+				return
+			}
+			tasks, _ := json.Marshal([]requests.SigningTask{{MessageID: "probe", Payload: []byte("probe")}})
+			payload, _ := json.Marshal(map[string]any{"BatchID": "probe", "SrcPayload": tasks})
+			if res, err := m.M.GetOperationResult(types.Operation{ID: fmt.Sprintf("%032x", 5), Type: "state_signing_await_partial_signs", Payload: payload, DKGIdentifier: round, CreatedAt: time.Now()}); err == nil && res.Event == "event_signing_partial_sign_received" {
+				v = violf("wrong-password-signs", "live machine %d after DropSensitiveData: a signing operation succeeds with the wrong password %q", target, wp)
+				return
+			}
+		}
+		m.M.DropSensitiveData()
+		m.M.SetEncryptionKey(m.Password)
+		if err := m.M.LoadKeysFromDB(); err != nil {
+			v = violf("right-password-fails", "live machine %d: the right password no longer works after wrong attempts: %v", target, err)
+			return
+		}
 		m.Close()
 		world.Drain()
 		files, _ := os.ReadDir(m.Dir)
